@@ -69,6 +69,136 @@ def gen_big_specs(r, thorough, serial0):
     return ["%s,%s,%d,%d,%d,big" % (r.choice("cs"), r.choice("lB"), n, r.choice([0, 0, 1, 2]), serial0 + i) for i, n in enumerate(sizes)]
 
 
+def gen_bighdr_specs(r, thorough, serial0):
+    """messages whose ARRAY OF HEADER FIELDS is 64 KiB or longer (an object path of 64 KiB + k / about 70000 / in the
+    thorough tier up to 1 MiB characters): header_fields_len does not fit 16 bits, the body is short or empty"""
+    sizes = [65536 + r.randrange(0, 24), 70000 + r.randrange(0, 3000)]
+    if thorough:
+        sizes += [65535 - 60, 65536 - 30, 65536, 131072 + 3, 200001, (1 << 20) + 5]
+    return ["%s,%s,%d,%d,%d,hdr,p%d" % (r.choice("cs"), r.choice("lB"), r.choice([-1, 0, 5, 296]), r.choice([0, 0, 1, 2]), serial0 + i, n)
+            for i, n in enumerate(sizes)]
+
+
+# ------------------------------------------------------------------ frames of 64 .. 128 MiB (no model run)
+
+MAXA = 1 << 26      # MAX_ARRAY_LEN: the longest array - NOT a limit of the body, which may hold several arrays
+MAXM = 1 << 27      # MAX_MESSAGE_LEN
+
+
+def gen_giants(r, thorough):
+    """lines for the harness command `giant`: a message whose body is longer than 2^26 bytes (two or three byte arrays,
+    or one array of exactly 2^26 bytes) up to a frame of exactly MAX_MESSAGE_LEN bytes, a small message behind it and
+    sometimes one in front; written by a peer thread in pieces of 192 KiB .. 8 MiB with cuts inside the fixed header,
+    one byte before the end of the frame and inside the message behind; received with Infinite calls"""
+    shapes = []
+    a = r.randrange(1 << 25, (1 << 25) + (1 << 21))
+    shapes.append(("two arrays, body just above 2^26", "%d.%d" % (a, MAXA + r.randrange(-8, 64) - a)))
+    shapes.append(("one array of 2^26 - k bytes, k < 4 (body = 4 + array)", "%d" % (MAXA - r.randrange(0, 4))))
+    shapes.append(("frame of MAX_MESSAGE_LEN - k bytes, k <= 8", "%d.F%d" % (MAXA - r.randrange(0, 9), r.choice([0, 0, 1, 7, 8]))))
+    if thorough:
+        shapes.append(("frame of exactly MAX_MESSAGE_LEN bytes", "%d.F0" % MAXA))
+        shapes.append(("frame of MAX_MESSAGE_LEN - k bytes, k <= 8", "%d.F1" % (MAXA - 5)))
+        shapes.append(("frame of MAX_MESSAGE_LEN - k bytes, k <= 8", "5.%d.F8" % (MAXA - 100)))
+        shapes.append(("one array of 2^26 - k bytes, k < 4 (body = 4 + array)", "%d" % MAXA))
+        for _ in range(6):
+            x = r.randrange(1 << 24, MAXA)
+            y = r.randrange(MAXA - x, min(MAXA, MAXM - x - 8192))
+            z = r.randrange(0, min(MAXA, MAXM - x - y - 4096))
+            shapes.append(("three arrays, body between 2^26 and 2^27", "%d.%d.%d" % (x, y, z)))
+    out = []
+    for k, (what, lens) in enumerate(shapes):
+        specs = []
+        if r.random() < 0.5:
+            specs.append("%s,%s,%s,%d,fr" % (r.choice("cs"), r.choice("lB"), r.choice(["-", "3", "0.17"]), 7000 + 3 * k))
+        g = len(specs)
+        specs.append("%s,%s,%s,%d,gi" % (r.choice("cs"), r.choice("lB"), lens, 7001 + 3 * k))
+        specs.append("%s,%s,%s,%d,be" % (r.choice("cs"), r.choice("lB"), r.choice(["-", "5", "0.300"]), 7002 + 3 * k))
+        cuts = ["%ds%d" % (g, r.choice([1, 3, 4, 7, 8, 11, 12, 13, 15, 16, 17])), "%de%d" % (g, r.choice([1, 1, 2, 8])),
+                "%ds%d" % (g, r.randrange(18, MAXA)), "%ds%d" % (g + 1, r.randrange(1, 40))]
+        if r.random() < 0.5:
+            cuts.append("%ds1" % g)
+        if r.random() < 0.3:
+            # no write boundary between the giant and the message behind it
+            chunk = r.choice([(1 << 20) + 1, 1000003, 3 * 65536 + 1])
+        else:
+            cuts.append("%de0" % g)
+            chunk = r.choice([1 << 20, 4 << 20, 8 << 20, 1000003, 3 * 65536])
+        ops = []
+        for _ in specs:
+            if r.random() < 0.4:
+                ops.append("j")
+            ops.append("i")
+        ops.append("g")
+        out.append((what, "giant %s %s %d %s" % ("|".join(specs), ".".join(cuts), chunk, ",".join(ops))))
+    return out
+
+
+def giant_verdict(line, res):
+    """None when the harness result of a `giant` line satisfies C09, else what fails"""
+    if res == "HANG":
+        return "a receive call never returned although the peer wrote every byte of every message"
+    if res.startswith("PANIC"):
+        return "a receive call panicked although the peer only wrote valid messages"
+    sent, got = res.split(" ")
+    sent = sent[len("sent="):].split("|")
+    got = [] if got == "got=-" else got[len("got="):].split(",")
+    ops = line.split(" ")[4].split(",")
+    k = 0
+    for n, op in enumerate(ops):
+        if n >= len(got):
+            return "the receive calls stopped after %d of %d" % (len(got), len(ops))
+        t = got[n]
+        if t.startswith("E") or t.startswith("PANIC"):
+            return ("a receive call failed (%s) on message %d (body of %s bytes) although the peer only wrote valid messages; "
+                    "%d of %d messages delivered" % (t.split(":", 1)[-1][:60] if ":" in t else t[:60], k, sent[k].split(";")[13] if k < len(sent) else "?", k, len(sent)))
+        if op == "j":
+            if t != "K":
+                return "read_once(Infinite) returned %s while a message was still on its way" % t[:40]
+        elif op == "i":
+            if t == "T":
+                return "get_next_message(Infinite) reported a time-out"
+            if not t.startswith("M"):
+                return "get_next_message(Infinite) returned %s" % t[:40]
+            if t[1:].rsplit(";", 1)[0] != sent[k]:
+                return "message %d delivered with a different header or body length than sent" % k
+            if not t.endswith(";eq"):
+                return "message %d delivered with body bytes that differ from the bytes sent" % k
+            k += 1
+        else:
+            if t.startswith("M"):
+                return "more messages delivered than were sent"
+            if t != "T":
+                return "the call after the last message did not report a time-out"
+    if k < len(sent):
+        return "only %d of %d messages delivered" % (k, len(sent))
+    return None
+
+
+def run_giants(ctx, exe, cases):
+    import subprocess
+    for what, line in cases:
+        # one process per case: at most one frame of up to 128 MiB (and the receive buffer for it) in memory at a time
+        try:
+            rc, out, err = vlib.run_lines(exe, [], [line], timeout=600)
+        except subprocess.TimeoutExpired:
+            rc, out, err = 0, ["HANG"], ""
+        if rc != 0 or len(out) != 1:
+            ctx.tie_broken("harness c09 crashed on a frame of more than 64 MiB", "%s\nrc=%s %s" % (line, rc, err[-1500:]))
+            continue
+        res = out[0]
+        if res.startswith("SETUPFAIL"):
+            ctx.extra["not_evaluated"] = ctx.extra.get("not_evaluated", 0) + 1
+            ctx.count("set-up failed (connect_to_bus / auth handshake): not a statement about the receive path")
+            continue
+        ctx.case(line, nontrivial=True, sample={"kind": "giant: " + what, "line": line, "results": res.split(" got=")[-1][:300]})
+        ctx.count("kind:giant (body above 2^26 bytes; property predicate only, model skipped)")
+        ctx.count("giant: " + what)
+        verdict = giant_verdict(line, res)
+        if verdict is not None:
+            ctx.disagreements_checked += 1
+            ctx.violation(verdict, {"giant": line, "shape": what, "impl": res[:3000]})
+
+
 class Msg:
     def __init__(self, spec, frame_hex, canon):
         self.spec = spec
@@ -458,6 +588,8 @@ def run_batch(ctx, exe, drv, scheds, model=True):
                 ctx.count("descriptor count %d" % m.nfds)
             if len(m.body) // 2 >= 65536:
                 ctx.count("messages with a body of 64 KiB or more")
+            if m.n - (0 if m.body == "-" else len(m.body) // 2) >= 65536 + 16:
+                ctx.count("messages with an array of header fields of 64 KiB or more")
         ctx.count("ops:t (Duration 1 ms: nothing queued, or only part of a message)", sum(1 for ev in s.events if ev == "t"))
         ctx.count("ops:T (Duration 5 s, whole message queued)", sum(1 for ev in s.events if ev == "T"))
         ctx.count("ops:i (Infinite, whole message queued)", sum(1 for ev in s.events if ev == "i"))
@@ -551,7 +683,14 @@ def run(ctx):
                 "(the deadline has passed at the first look at the clock: the model's time-up branch, mostly on a partly filled buffer), "
                 "read_once with Duration(5 s) / Infinite where a read can be made at once and with Duration(1 ns), interleaved with the "
                 "writes; plus backlogs (several hundred KiB .. 2 MiB written before the client reads, so that single reads exceed 64 KiB) "
-                "and, in the thorough tier, frames up to 32 MiB (above 4 MiB against the property predicate only); "
+                "and, in the thorough tier, frames up to 32 MiB (above 4 MiB against the property predicate only); messages whose "
+                "array of header fields is 64 KiB or longer (object path of 64 KiB + k, about 70000, thorough: up to 1 MiB characters) "
+                "chunked, cut around the fixed header and around byte 65536, and as a backlog; bodies ABOVE 2^26 bytes (two byte arrays "
+                "summing to just over 2^26; one array of 2^26 - k bytes; a frame of MAX_MESSAGE_LEN - k bytes, k <= 8; thorough: exactly "
+                "MAX_MESSAGE_LEN and random bodies between 2^26 and 2^27) generated inside the harness from a short descriptor, written "
+                "by a peer thread in pieces of 192 KiB - 8 MiB with cuts in the fixed header, before the last byte and inside the next "
+                "message, received with get_next_message(Infinite) / read_once(Infinite), judged by the property predicate alone (every "
+                "message delivered in order, header fields and body bytes equal, then a time-out; model skipped); "
                 "every schedule ends with all bytes written and one more get_next than messages. non-trivial = some write boundary "
                 "lies strictly inside a frame or some message carries descriptors; distinct = distinct (frames, event list)") % (
                     "all" if thorough else "a third of the")
@@ -563,7 +702,8 @@ def run(ctx):
                        "the peer does not close the connection; messages carry at most 253 descriptors (kernel limit per sendmsg = size of the control buffer)",
                        "usize is 64 bit",
                        "in refill_buffer `stream.set_nonblocking(false)?` and `stream.set_read_timeout(old_timeout)?` run after recvmsg and before `msg?`: if one of them failed after a successful recvmsg, the bytes already written into the buffer and the received control messages would be dropped (filled is not advanced, descriptors are not collected). These fcntl/setsockopt calls do not fail on a healthy socket; neither the model nor the harness covers their failure (same shape as the C10 assumption about the send side)",
-                       "frames above 2 MiB (quick) / 4 MiB (thorough) are checked against the property predicate only, the extracted model being too slow for them (counted in the input distribution)"]
+                       "frames above 2 MiB (quick) / 4 MiB (thorough) are checked against the property predicate only, the extracted model being too slow for them (counted in the input distribution); this includes every frame with a body above 2^26 bytes (kind:giant)",
+                       "an announced length above the limits (message > 2^27, header fields > 2^26) ending in a prompt error rather than a wait is C18's subject (checks/c18.py drives get_next_message with such announcements); C09 sends valid messages only"]
     ctx.try_proof()
     exe = vlib.harness_build(["c09"])["c09"]
     vlib.coq_make(["Conn/Recv.vo"])
@@ -614,7 +754,33 @@ def run(ctx):
         b = r.choice(big)
         msgs = [x for x in [r.choice(pool) if r.random() < 0.4 else None, b, r.choice(pool) if r.random() < 0.6 else None] if x is not None and x.nfds < 9]
         scheds.append(Sched(msgs, backlog(r, msgs), "big backlog"))
+    # an array of header fields of 64 KiB and more (a long object path): every such message whole-frame chunked, cut
+    # inside / right behind the fixed header and its length field, and as a backlog
+    bighdr = build_pool(exe, gen_bighdr_specs(r, thorough, 5500))
+    for b in bighdr:
+        if len(b.frame) // 2 - len(b.body) // 2 < 65536:
+            if not thorough:
+                raise vlib.BrokenTie("c09: a generated long header is shorter than 64 KiB", b.spec)
+        ctx.count("messages with an array of header fields of 64 KiB or more", 0)
+        for style in ("big", "cuts", "backlog"):
+            msgs = [x for x in [r.choice(pool) if r.random() < 0.5 else None, b, r.choice(pool) if r.random() < 0.7 else None] if x is not None and x.nfds < 9]
+            if style == "backlog":
+                scheds.append(Sched(msgs, backlog(r, msgs), "big header backlog"))
+                continue
+            total = sum(m.n for m in msgs)
+            at = sum(m.n for m in msgs[:msgs.index(b)])
+            cuts, p = set(), 0
+            while p < total:
+                p += r.choice([r.randrange(1, 40), r.randrange(1000, 16000), r.randrange(8000, 16000), 16000]) if style == "big" else r.randrange(8000, 16001)
+                cuts.add(p)
+            if style == "cuts":
+                cuts |= set(at + c for c in r.sample([1, 3, 4, 7, 8, 11, 12, 13, 14, 15, 16, 17, 20, 255, 256, 257], 5))
+                cuts |= {at + b.n - 1, at + 65535, at + 65536, at + 65537}
+            scheds.append(Sched(msgs, interleave(r, writes_for(msgs, cuts), len(msgs), "big"), "big header"))
     run_batch(ctx, exe, drv, scheds)
+
+    # bodies above 2^26 bytes up to frames of MAX_MESSAGE_LEN bytes: the property predicate alone (no model run)
+    run_giants(ctx, exe, gen_giants(ctx.sub_rng("giant"), thorough))
 
     # frames of MiB size: with the model up to 2 MiB (quick) / 4 MiB (thorough); beyond that the extracted model
     # (bytes as unary-free but boxed numbers in lists) is too slow, and only the property predicate is evaluated
@@ -655,6 +821,17 @@ def run(ctx):
 def replay(ctx, body):
     data = body["data"]
     exe = vlib.harness_build(["c09"])["c09"]
+    if "giant" in data:
+        rc, out, err = vlib.run_lines(exe, [], [data["giant"]], timeout=600)
+        res = out[0] if rc == 0 and len(out) == 1 else "HANG"
+        print("case   :", data["giant"])
+        print("results:", res[:1500])
+        why = giant_verdict(data["giant"], res) if not res.startswith("SETUPFAIL") else None
+        if why:
+            print("REPRODUCED:", why)
+            return 1
+        print("not reproduced (the implementation's results satisfy the property on this case)")
+        return 0
     if "line" not in data:
         # MiB-sized frames: rebuilt from the specs
         ms = build_pool(exe, data["specs"])
